@@ -9,11 +9,12 @@ using namespace vm;
 inline long g_laws = 0;
 struct Bad { std::string fam, law, detail; };
 
-template<class V> auto sub_addr(V const& s) { return s.base(); }
+template<class P> auto rawp(P const& p) { if constexpr(std::is_pointer_v<P>) { return p; } else { return p.verif_raw(); } }   // harness-side view of a (possibly fancy) pointer
+template<class V> auto sub_addr(V const& s) { return rawp(s.base()); }
 
 // address designated by dereferencing an iterator of a D-dimensional view
 template<int D, class It> auto it_addr(It const& it) {
-	if constexpr(D == 1) { return std::addressof(*it); } else { return (*it).base(); }
+	if constexpr(D == 1) { return std::addressof(*it); } else { return rawp((*it).base()); }
 }
 
 // laws for one iterator family [b, e) of view v (n = model size); expected address of position p given by `at(p)`
@@ -44,7 +45,7 @@ void iter_laws(std::string const& fam, It b, It e, idx n, bool deref_ok, At&& at
 			if(p + k < n && deref_ok) {
 				++g_laws; if(it_addr<D>(jt) != at(p + k)) { B("*(it+k) is element p+k", "p=" + S(p) + " k=" + S(k)); }
 				if constexpr(D == 1) { ++g_laws; if(std::addressof(it[k]) != at(p + k)) { B("it[k] is *(it+k)", "p=" + S(p) + " k=" + S(k)); } }
-				else { ++g_laws; if(it[k].base() != at(p + k)) { B("it[k] is *(it+k)", "p=" + S(p) + " k=" + S(k)); } ++g_laws; if(!(it[k].layout() == (*jt).layout())) { B("it[k] layout", "p=" + S(p) + " k=" + S(k)); } }
+				else { ++g_laws; if(rawp(it[k].base()) != at(p + k)) { B("it[k] is *(it+k)", "p=" + S(p) + " k=" + S(k)); } ++g_laws; if(!(it[k].layout() == (*jt).layout())) { B("it[k] layout", "p=" + S(p) + " k=" + S(k)); } }
 			}
 			{  // += / -= round trip
 				It mt = it; mt += k;
